@@ -48,6 +48,11 @@ def run_wire(ctx, gens, nquick, nthorough, nloop, design_cfg=None):
         total += len(sc)
         # rare classes are always kept, the bulk is sampled
         rare = [s for s in sc if s["out"]["kind"] == "badsend"]
+        # megabyte messages (C01): a seeded handful in the quick tier, all of them in the thorough one
+        big = [s for s in sc if any(m["vlen"] > 1 << 20 for m in s["req"] + s["resp"])]
+        sc = [s for s in sc if not any(m["vlen"] > 1 << 20 for m in s["req"] + s["resp"])]
+        if ctx.prop == "C01":
+            rare += core.sample(ctx.rng, big, 48 if quick else len(big))
         scen += rare + core.sample(ctx.rng, sc, (nquick if quick else nthorough) // len(gens))
     ctx.notes["generated_scenarios"] = total
     scen = with_transports(ctx, scen, nloop if quick else nloop * 10)
